@@ -730,6 +730,8 @@ fn classify(prop: &str, v: &SV, o: &O) -> String {
                               || matches!(x, SV::Map(_, e) if e.is_empty()) || matches!(x, SV::Struct(e) | SV::StructVariant(_, e) if e.is_empty())) {
         return id("empty-no-braces");
     }
+    // an implicit (`key: value`) mapping key is limited to 1024 characters by YAML; the emitter writes longer scalar keys that way
+    if has(&|x| matches!(x, SV::Map(_, es) if es.iter().any(|(k, _)| matches!(k, SV::Str(t) if t.chars().count() > 1000)))) { return id("long-implicit-key"); }
     if o.indent == 1 { return id("indent-step-1"); }
     if o.indent >= 3 { return id("indent-step-ge3"); }
     if o.compact { return id("compact-list-indent"); }
@@ -1051,7 +1053,11 @@ impl Ctx {
             // key" (known reader rule `null-key-map-as-key`), the reference reader does not
             let null_key_map = has_null_key_map_key(v);
             if null_key_map { self.sink.count("read.skipped_null_key_map_key"); }
-            if !empty_key && !open_flow && !random_broken && !null_key_map && self.texts.insert(text.clone()) {
+            // an implicit key longer than 1024 characters: the real parser rejects it, the reference reader has no such limit yet
+            // (finding long-implicit-key: the emitter should write such a key as an explicit `? key`)
+            let long_key = v.any(&|x| matches!(x, SV::Map(_, es) if es.iter().any(|(k, _)| matches!(k, SV::Str(t) if t.chars().count() > 1000))));
+            if long_key { self.sink.count("read.skipped_long_implicit_key"); }
+            if !empty_key && !open_flow && !random_broken && !null_key_map && !long_key && self.texts.insert(text.clone()) {
                 // a null document is not counted by from_multiple (0 documents); two or more = not one document
                 let single = matches!(doc_count(text), Ok(0) | Ok(1));
                 let imp = match parse_any(text) { Ok(val) if single => format!("some {}", P::from_val(&val).tokens()), _ => "none".to_string() };
@@ -1225,6 +1231,9 @@ fn witnesses13() -> Vec<(SV, O)> {
         (SV::NewtypeVariant("Y", Box::new(i(1))), d),                                                                   // variant-key-yaml11-bool
         (SV::Seq(vec![SV::StructVariant("No", vec![("a", i(1))]), SV::TupleVariant("on", vec![i(1), i(2)])]), d),
         (SV::Seq(vec![SV::UnitVariant("Axis", "X"), SV::UnitVariant("Axis", "Y")]), O { tagged: true, ..d }),            // tagged-variant-yaml11-bool (seed C20/3)
+        (SV::Map(true, vec![(SV::Str("k".repeat(1024)), i(1))]), d),                                                     // longest implicit key
+        (SV::Map(true, vec![(SV::Str("k".repeat(1025)), i(1))]), d),                                                     // long-implicit-key (finding)
+        (SV::Seq(vec![SV::Map(true, vec![(SV::Str("long key ".repeat(130)), SV::Seq(vec![i(1)]))])]), d),
     ]
 }
 
